@@ -1,6 +1,6 @@
 From Coq Require Import ZArith List Bool Reals Lra.
 From Flocq Require Import Core BinarySingleNaN.
-Require Import GV.FloatBase GV.FloatLemmas GV.AngleM GV.AngleProofs GV.GeonumM GV.GeonumProofs GV.TraitsM GV.NewProofs GV.CtorProofs GV.ClosureProofs GV.TraitsProofs GV.BoundProofs.
+Require Import GV.FloatBase GV.FloatLemmas GV.AngleM GV.AngleProofs GV.GeonumM GV.GeonumProofs GV.TraitsM GV.NewProofs GV.CtorProofs GV.ClosureProofs GV.TraitsProofs GV.BoundProofs GV.PiBounds GV.TrigProofs GV.DotValue.
 Open Scope R_scope.
 Require Import GV.Properties.C09.
 Check C09_encoding : forall (L : libm) a b, fin (dot_value L a b) ->
@@ -22,3 +22,22 @@ Check C09_bound : forall (L : libm) a b, cos_range L -> fin (fmul (mag a) (mag b
   Rabs (R_ (fmul (mag a) (mag b))) <= bpow radix2 1000 ->
   fin (dot_value L a b) /\ R_ (mag (dot L a b)) <= Rabs (R_ (fmul (mag a) (mag b))).
 Print Assumptions C09_bound.
+Check C09_cos_value : forall (L : libm) (u : R) a b, cos_acc L u ->
+  canonp (rem a) -> canonp (rem b) -> (0 <= blade a)%Z -> (0 <= blade b)%Z ->
+  let c := cosF L (grade_angle (geometric_sub b a)) in
+  fin c /\ Rabs (R_ c - cos (dir b - dir a)) <= u + 10001 / 100000000000000.
+Print Assumptions C09_cos_value.
+Check C09_value : forall (L : libm) (u : R) a b, cos_acc L u -> u <= / 1000 ->
+  canonp (rem (ang a)) -> canonp (rem (ang b)) -> (0 <= blade (ang a))%Z -> (0 <= blade (ang b))%Z ->
+  fin (dot_value L a b) ->
+  Rabs (R_ (dot_value L a b) - R_ (mag a) * R_ (mag b) * cos (dir (ang b) - dir (ang a)))
+    <= Rabs (R_ (mag a) * R_ (mag b)) * (u + 10002 / 100000000000000) + bpow radix2 (-1073).
+Print Assumptions C09_value.
+Check C09_orthogonal_value : forall (L : libm) (u : R) a b, cos_acc L u -> u <= / 1000 ->
+  canonp (rem (ang a)) -> canonp (rem (ang b)) -> (0 <= blade (ang a))%Z -> (0 <= blade (ang b))%Z ->
+  fin (dot_value L a b) -> is_orthogonal L a b = true ->
+  Rabs (R_ (mag a) * R_ (mag b) * cos (dir (ang b) - dir (ang a)))
+    < R_ EPSILON + Rabs (R_ (mag a) * R_ (mag b)) * (u + 10002 / 100000000000000) + bpow radix2 (-1073).
+Print Assumptions C09_orthogonal_value.
+Check C09_value_hyps_inhabited : cos_acc ideal_libm (/ 4503599627370496) /\ sin_acc ideal_libm (/ 4503599627370496) /\ / 4503599627370496 <= / 1000.
+Print Assumptions C09_value_hyps_inhabited.
